@@ -1,6 +1,7 @@
 package rules
 
 import (
+	"fmt"
 	"strings"
 
 	"golang.org/x/tools/go/ssa"
@@ -13,8 +14,8 @@ func init() {
 	Registry["C19"] = c19
 	Metas["C19"] = Meta{Level: "other", NeedCG: true,
 		Technique: "static analysis: guarded-by (lockset) check of the pool's shared fields over the call graph, lock-order graph, edge-dominance of the capacity and duplicate tests before every insertion, per-iteration recomputation of the promotion allowance",
-		Explain: "The behavioural clauses of this property (nonce order offered, no loss, no re-offer) quantify over histories of submissions and commits and are NOT decided. Decided are structural necessary conditions: (R1) every access to the EVM pool's shared maps and lists (pending, waiting, waitingBeats, all, extTxs, broadcastQueue) happens with tp.mtx held, here or by every caller; the generic mempool's dedup cache is accessed under its own mutex; (R2) lock order: tp.mtx before app.stateMtx, never the reverse; the lock-order graph is acyclic; (R3) bound before insert: the waiting queue insertion is edge-dominated by waitingTxCount < waitingLimit, pending insertion by pendingTxCount < pendingLimit with the allowance recomputed for every account inside the promotion loop, the admin and broadcast lists evict their oldest entry when at their limit, and the generic mempool tests its limit before PushBack; (R4) duplicate before insert: CheckAndAdd looks the hash up in tp.all before addWaiting and records it afterwards, txSortedMap.Add refuses an existing nonce, the admin list is scanned before PushBack, and the generic mempool appends only when txCache.Push reported the transaction as new; (R5) stale nonces are rejected before insertion and promotion starts at the account's state nonce.",
-		Assume: []string{"go-clist is internally synchronised", "the state nonce read under stateMtx is the committed one"},
+		Explain:   "The behavioural clauses of this property (nonce order offered, no loss, no re-offer) quantify over histories of submissions and commits and are NOT decided. Decided are structural necessary conditions: (R1) every access to the EVM pool's shared maps and lists (pending, waiting, waitingBeats, all, extTxs, broadcastQueue) happens with tp.mtx held, here or by every caller; the generic mempool's dedup cache is accessed under its own mutex; (R2) lock order: tp.mtx before app.stateMtx, never the reverse; the lock-order graph is acyclic; (R3) bound before insert: the waiting queue insertion is edge-dominated by waitingTxCount < waitingLimit, pending insertion by pendingTxCount < pendingLimit with the allowance recomputed for every account inside the promotion loop, the admin and broadcast lists evict their oldest entry when at their limit, and the generic mempool tests its limit before PushBack; (R4) duplicate before insert: CheckAndAdd looks the hash up in tp.all before addWaiting and records it afterwards, txSortedMap.Add refuses an existing nonce, the admin list is scanned before PushBack, and the generic mempool appends only when txCache.Push reported the transaction as new; (R5) stale nonces are rejected before insertion and promotion starts at the account's state nonce.",
+		Assume:    []string{"go-clist is internally synchronised", "the state nonce read under stateMtx is the committed one"},
 	}
 }
 
@@ -26,6 +27,7 @@ func c19(c *Ctx) {
 	c19R3(c)
 	c19R4(c)
 	c19R5(c)
+	c19R6(c)
 }
 
 func c19R1(c *Ctx) {
@@ -263,4 +265,44 @@ func c19R5(c *Ctx) {
 		}
 		c.R.Ob(rule, "ReadyN:nothing-when-minimum-above-start", gap, c.P.Pos(f.F.Pos()), fname(f), "a queue whose lowest nonce is above the account nonce is not executable")
 	}
+}
+
+// c19R6: the nonce that admission decides on is read under the pool lock; list iteration survives removal.
+func c19R6(c *Ctx) {
+	rule := c.R.Rule("R6", "consistent admission view and complete refresh: in CheckAndAdd the account's state nonce (safeGetNonce) is read with ethTxPool.mtx held, i.e. in the same critical section as the duplicate check and the insertion (a commit cannot advance the nonce in between); a loop that walks a clist with e.Next() never calls DetachNext on the element it stands on (the walk would stop after the first removal and committed entries would stay in the pool)", 3)
+	a := c.Locks()
+	if f := c.Anchor(rule, tpT+".CheckAndAdd"); f != nil {
+		n := 0
+		for _, ci := range f.CallsTo(cfgx.Named(tpT + ".safeGetNonce")) {
+			n++
+			held := a.MustHeld(ci.(ssa.Instruction))
+			c.R.Ob(rule, "CheckAndAdd:safeGetNonce-under-pool-lock", held["chain/app/evm.ethTxPool.mtx"], c.Pos(ci), fname(f), fmt.Sprintf("locks held at the read: %v", held.Sorted()))
+		}
+		if n == 0 {
+			c.R.Undecided(rule, "CheckAndAdd:safeGetNonce", c.P.Pos(f.F.Pos()), fname(f), "no nonce read")
+		}
+	}
+	walks := 0
+	for _, fn := range c.P.FuncsOfPkg("chain/app/evm") {
+		if fn.Blocks == nil {
+			continue
+		}
+		f := c.Fn(fn)
+		next := map[string]bool{}
+		for _, ci := range f.CallsTo(cfgx.Named("gemmill/modules/go-clist.(*CElement).Next")) {
+			next[callArg(ci, 0)] = true
+		}
+		if len(next) == 0 {
+			continue
+		}
+		walks++
+		bad := ""
+		for _, ci := range f.CallsTo(cfgx.Named("gemmill/modules/go-clist.(*CElement).DetachNext")) {
+			if next[callArg(ci, 0)] {
+				bad = c.Pos(ci)
+			}
+		}
+		c.R.Ob(rule, "list-walk:"+core.Short(core.FuncName(fn))+":next-kept-until-advanced", bad == "", c.P.Pos(fn.Pos()), core.FuncName(fn), "DetachNext on the loop element at "+bad+" makes e.Next() nil: the refresh stops after the first committed entry")
+	}
+	c.R.Ob(rule, "list-walks", walks >= 2, "-", "", fmt.Sprintf("%d functions walk a clist with Next()", walks))
 }
